@@ -459,3 +459,41 @@ theorem blockRequest_reencode (msg : Proto.BlockRequest) (m : Msg)
     · simp [hl] at h
 
 end Gossamer.C33
+
+namespace Gossamer.C33
+open Gossamer Gossamer.Scale Gossamer.Proto
+
+/-! ## state request -/
+
+theorem foldl_start (m : StateReqP) (bs : List Bytes) :
+    (bs.map (fun b => (⟨2, .len b⟩ : WField))).foldl StateReqP.step m = { m with start := m.start ++ bs } := by
+  induction bs generalizing m with
+  | nil => simp
+  | cons b bs ih =>
+    have := ih (StateReqP.step m ⟨2, .len b⟩)
+    simp only [List.map_cons, List.foldl_cons] at this ⊢
+    rw [this]; simp [StateReqP.step]
+
+theorem StateReqP.ofFields_toFields (m : StateReqP) : StateReqP.ofFields m.toFields = m := by
+  obtain ⟨b, st, np⟩ := m
+  simp only [StateReqP.ofFields, StateReqP.toFields, List.foldl_append, foldl_start]
+  by_cases hb : b = [] <;> cases np <;> simp [optBytes, flag, StateReqP.step, hb]
+
+theorem stateReq_shape (m : StateReqP) :
+    ∀ f ∈ m.toFields, (1 ≤ f.num ∧ f.num ≤ 7) ∧ ∀ n, f.val = .varint n → n < 18446744073709551616 := by
+  intro f hf
+  simp only [StateReqP.toFields, List.mem_append] at hf
+  rcases hf with h | h | h
+  · unfold optBytes at h
+    split at h
+    · simp at h
+    · simp only [List.mem_singleton] at h; subst h
+      exact ⟨⟨by simp, by simp⟩, by intro n hn; cases hn⟩
+  · simp only [List.mem_map] at h
+    obtain ⟨b, _, rfl⟩ := h
+    exact ⟨⟨by simp, by simp⟩, by intro n hn; cases hn⟩
+  · cases hb : m.noProof <;> simp [flag, hb] at h
+    subst h
+    exact ⟨⟨by simp, by simp⟩, by intro n hn; injection hn with hn; omega⟩
+
+end Gossamer.C33
